@@ -139,7 +139,7 @@ class SchemaValidationContext:
                         f"{operation_type_str} root type must be Object type"
                         f"{if_provided_str}, it cannot be {root_type_str}.",
                         get_operation_type_node(schema, operation_type)
-                        or root_type.ast_node,
+                        or getattr(root_type, "ast_node", None),
                     )
         for root_type, operation_types in root_types_map.items():
             if len(operation_types) > 1:
@@ -518,7 +518,7 @@ class SchemaValidationContext:
                     f"Type {type_} cannot implement {iface.name}"
                     " because it would create a circular reference."
                     if transitive is type_
-                    else f"Type {type_} must implement {transitive.name}"
+                    else f"Type {type_} must implement {transitive}"
                     f" because it is implemented by {iface.name}.",
                     get_all_implements_interface_nodes(iface, transitive)
                     + get_all_implements_interface_nodes(type_, iface),
@@ -913,13 +913,14 @@ def get_all_implements_interface_nodes(
     if ast_node is not None:
         nodes = [ast_node, *nodes]  # type: ignore
     implements_nodes: list[NamedTypeNode] = []
+    iface_name = getattr(iface, "name", None)  # a wrapping type has no name
     for node in nodes:
         iface_nodes = node.interfaces
         if iface_nodes:
             implements_nodes.extend(
                 iface_node
                 for iface_node in iface_nodes
-                if iface_node.name.value == iface.name
+                if iface_node.name.value == iface_name
             )
     return implements_nodes
 
